@@ -336,6 +336,7 @@ def add_connection(u):
                C('C01.batch.take_batch.queue_emptied', 'final(self).batch_sender.queue.len() == 0'),
                C('C02.batch.take_batch.registers_exactly_the_tracked_seqs', '''forall|k: i32| #[trigger] final(self).packet_log@.contains_key(k) <==>
                 (old(self).packet_log@.contains_key(k) || exists|i: int| 0 <= i < old(self).batch_sender.queue.len() && (#[trigger] old(self).batch_sender.sequences[i]) is Some && old(self).batch_sender.sequences[i].unwrap() as i32 == k)'''),
+               'final(self).packet_log@.len() <= old(self).packet_log@.len() + old(self).batch_sender.queue.len()',
                C('C01.batch.take_batch.stamps_last_sent', 'old(self).batch_sender.queue.len() > 0 ==> final(self).last_sent == Some(now)'),
                'final(self).window == old(self).window', 'final(self).connected == old(self).connected',
                'final(self).conn_id == old(self).conn_id',
